@@ -428,11 +428,17 @@ class URLInfo(object):
         return self.raw != other.raw
 
 
+_PRINTABLE_ASCII = ''.join(chr(i) for i in range(0x20, 0x7f))
+
+
 @functools.lru_cache()
 def _is_ascii_compatible(encoding):
-    '''Return whether the codec encodes ASCII text to the same bytes.'''
+    '''Return whether the codec encodes printable ASCII text to the same bytes.
+
+    HZ and UTF-7 escape some ASCII characters (``~``, ``+``).
+    '''
     try:
-        return 'az09/?#%. '.encode(encoding) == b'az09/?#%. '
+        return _PRINTABLE_ASCII.encode(encoding) == _PRINTABLE_ASCII.encode('ascii')
     except LookupError:
         # Unknown codec: reported when the text is encoded, as before.
         return True
